@@ -30,7 +30,20 @@ func main() {
 	verif := flag.String("verif", "/verif", "verification directory (evidence, known findings)")
 	arch := flag.String("arch", "", "GOARCH to analyse (default amd64; thorough adds 386)")
 	dump := flag.String("dump", "", "debug: dump SSA of function (substring match)")
+	shownorm := flag.String("shownorm", "", "debug: write the helper-inlined files into this directory and print the normalisation log")
 	flag.Parse()
+	if *shownorm != "" {
+		ov, lg := normalizeRepo(*repo, *arch)
+		for _, l := range lg {
+			fmt.Println(l)
+		}
+		os.MkdirAll(*shownorm, 0o755)
+		for fn, b := range ov {
+			os.WriteFile(*shownorm+"/"+strings.ReplaceAll(strings.TrimPrefix(fn, *repo+"/"), "/", "_"), b, 0o644)
+		}
+		fmt.Printf("%d file(s) rewritten\n", len(ov))
+		return
+	}
 
 	if env := os.Getenv("VERIF_TIER"); env != "" && !flagSet("tier") {
 		*tier = env
@@ -109,6 +122,14 @@ func main() {
 					break
 				}
 				c.P = p
+				if i == 0 && len(p.NormLog) > 0 {
+					for _, l := range p.NormLog {
+						c.Note("normalisation: %s", l)
+					}
+					if len(p.Overlay) > 0 {
+						c.Note("positions in files touched by the normalisation refer to the helper-inlined form of the file, not to the file on disk")
+					}
+				}
 				if i == 0 {
 					def.run(c, p)
 				} else {
